@@ -320,7 +320,13 @@ class DirectObjectAccess:
         return tuple(name.split('.'))
 
     def dir(self):
-        return dir(self._obj)
+        try:
+            names = dir(self._obj)
+        except Exception:
+            # A custom __dir__ can raise anything, completions should not crash.
+            return []
+        # A custom __dir__ can also return objects that are not strings.
+        return [name for name in names if isinstance(name, str)]
 
     def has_iter(self):
         try:
